@@ -125,7 +125,13 @@ def run_case(p, n, conn, g, table=None, retain=None, stratum="random", qc_obj=No
     from htstabilizer import circuit_lookup
     case = {"n": n, "conn": conn, "gates": [[nm, list(qs)] for nm, qs in g]}
     p.evals += 1
-    qc = qc_obj if qc_obj is not None else ws.qiskit_circuit(g, n)
+    regs = None
+    if qc_obj is None and len(g) % 5 == 2:
+        import random as _r
+        regs = ws.random_registers(n, _r.Random(len(g) * 31 + n))
+        case["registers"] = regs
+        p.counters["inputs on several quantum registers"] += 1
+    qc = qc_obj if qc_obj is not None else ws.qiskit_circuit(g, n, regs)
     if not keep_attrs:
         qc.name = "input-circuit"
         qc.metadata = {"tag": 7}
